@@ -411,3 +411,164 @@ func c18slotTable() map[string]map[string][]c18slot {
 	}
 	return out
 }
+
+// ---- pairs of enum slots of one struct -----------------------------------------------------------
+
+type c18pairJob struct {
+	etA, etB     EnumType
+	keyA, keyB   string
+	nameA, nameB string
+	va, vb       uint64
+}
+
+func c18structID(s c18slot) uintptr {
+	if s.st.CanAddr() {
+		return s.st.Addr().Pointer()
+	}
+	return 0
+}
+
+// c18findPair returns the first slot of keyA (in walk order) whose struct also holds a slot keyB.
+func c18findPair(all map[string][]c18slot, enA, keyA, enB, keyB string) (a, b c18slot, ok bool) {
+	for _, sa := range all[enA] {
+		if sa.key != keyA {
+			continue
+		}
+		id := c18structID(sa)
+		for _, sb := range all[enB] {
+			if sb.key == keyB && c18structID(sb) == id && id != 0 {
+				return sa, sb, true
+			}
+		}
+	}
+	return
+}
+
+// c18walkPairJobs: for every struct of the base module that carries two enum slots (a call with
+// tail kind and calling convention, a cmpxchg with two orderings, a DISubprogram with flags,
+// spFlags and virtuality, ...) every pair of defined non-zero values.
+func c18walkPairJobs(maxVals int) []c18pairJob {
+	m, err := asm.ParseString("c18base.ll", c18base())
+	if err != nil {
+		fw.Fatalf("C18 base: %v", err)
+	}
+	all := c18walk(m)
+	byName := map[string]EnumType{}
+	vals := map[string][]EnumConst{}
+	for _, et := range EnumTable {
+		byName[et.Name] = et
+		seen := map[uint64]bool{}
+		for _, k := range et.Consts {
+			if k.Value == 0 || seen[k.Value] {
+				continue
+			}
+			if c18flagTypes[et.Name] && k.Value&(k.Value-1) != 0 {
+				continue // single members only
+			}
+			seen[k.Value] = true
+			vals[et.Name] = append(vals[et.Name], k)
+		}
+	}
+	if maxVals > 0 {
+		// quick tier: at most maxVals evenly spaced values per enum.
+		for en, vs := range vals {
+			if len(vs) > maxVals {
+				var pick []EnumConst
+				for i := 0; i < maxVals; i++ {
+					pick = append(pick, vs[i*(len(vs)-1)/(maxVals-1)])
+				}
+				vals[en] = pick
+			}
+		}
+	}
+	type kk struct{ en, key string }
+	var keys []kk
+	seenKey := map[kk]bool{}
+	var ens []string
+	for en := range all {
+		ens = append(ens, en)
+	}
+	sort.Strings(ens)
+	for _, en := range ens {
+		for _, s := range all[en] {
+			k := kk{en, s.key}
+			if !seenKey[k] {
+				seenKey[k] = true
+				keys = append(keys, k)
+			}
+		}
+	}
+	var jobs []c18pairJob
+	for i := 0; i < len(keys); i++ {
+		for j := i + 1; j < len(keys); j++ {
+			a, b := keys[i], keys[j]
+			if strings.SplitN(a.key, ".", 2)[0] != strings.SplitN(b.key, ".", 2)[0] {
+				continue // different struct types
+			}
+			if _, _, ok := c18findPair(all, a.en, a.key, b.en, b.key); !ok {
+				continue
+			}
+			for _, va := range vals[a.en] {
+				for _, vb := range vals[b.en] {
+					jobs = append(jobs, c18pairJob{byName[a.en], byName[b.en], a.key, b.key, va.Name, vb.Name, va.Value, vb.Value})
+				}
+			}
+		}
+	}
+	return jobs
+}
+
+func c18runWalkPairJob(c *fw.Check, j c18pairJob) {
+	var text string
+	var ga, gb uint64
+	var oka, okb bool
+	var perr error
+	p := fw.Try(func() {
+		m, err := asm.ParseString("c18base.ll", c18base())
+		if err != nil {
+			panic(err)
+		}
+		sa, sb, ok := c18findPair(c18walk(m), j.etA.Name, j.keyA, j.etB.Name, j.keyB)
+		if !ok {
+			panic("pair of slots not found")
+		}
+		c18slotSet(sa, j.etA.Name, j.va)
+		c18slotSet(sb, j.etB.Name, j.vb)
+		text = m.String()
+		m2, err := asm.ParseString("c18.ll", text)
+		if err != nil {
+			perr = err
+			return
+		}
+		ra, rb, ok2 := c18findPair(c18walk(m2), j.etA.Name, j.keyA, j.etB.Name, j.keyB)
+		if ok2 {
+			ga, oka = c18slotGet(ra, j.etA.Name)
+			gb, okb = c18slotGet(rb, j.etB.Name)
+		}
+	})
+	c.Case(fmt.Sprintf("walkpair|%s=%d|%s=%d", j.keyA, j.va, j.keyB, j.vb), fmt.Sprint(ga, gb, oka, okb))
+	bad, what := "", ""
+	switch {
+	case p != "":
+		bad, what = "panic", p
+	case perr != nil:
+		bad, what = "reparse-error", fw.Trunc(perr.Error(), 300)
+	case !oka || !okb:
+		bad, what = "lost", "one of the two values is not found in the same struct of the re-parsed module"
+	case ga != j.va:
+		bad, what = "changed/"+j.nameA+"-with-"+j.nameB, fmt.Sprintf("%s came back as %d", j.keyA, ga)
+	case gb != j.vb:
+		bad, what = "changed/"+j.nameB+"-with-"+j.nameA, fmt.Sprintf("%s came back as %d", j.keyB, gb)
+	}
+	if bad == "" {
+		c.Valid(1)
+		return
+	}
+	if text != "" && fw.HaveLLVM() {
+		if okL, _ := fw.LLVMAccepts(text); !okL {
+			c.Invalid++
+			return
+		}
+	}
+	c.Violation("pair/"+j.keyA+"+"+j.keyB+"/"+bad, c18case{Type: j.etA.Name + "+" + j.etB.Name, Const: j.nameA + "+" + j.nameB, Value: j.va, Text: fw.Trunc(c18diffLines(c18base(), text), 600), What: what})
+}
